@@ -219,7 +219,7 @@ pub fn noisy_program(rng: &mut Rng) -> Program {
         if i == j { j = (j + 1) % p.defs.len(); }
         p.defs[j].path = p.defs[i].path.clone();
         for d in [i, j] {
-            let args: Vec<Src> = (0..p.defs[d].params.len()).map(|_| reggen::rand_arg(rng, 0)).collect();
+            let args: Vec<Src> = { let cps = reggen::compact_params(&p.defs[d]); (0..p.defs[d].params.len()).map(|i| if cps.contains(&i) { Src::Prim("u32") } else { reggen::rand_arg(rng, 0) }).collect() };
             p.roots.push(Src::App(d, args));
         }
     }
